@@ -73,9 +73,17 @@ def _jit():
     def g_hamA(t, y):
         th = y[5]
         c = y[2]
-        if th > 9.0:
+        if th > 9.0 and th < 15.0:
             return t - c
-        return np.cos(th) * y[0] + np.sin(th) * y[3] + 0.5 * np.sin(th) * y[1] - c
+        # steepness of the event function encoded in theta: theta + 20 m, m = 0, 1, 2 -> scale 1, 1e3, 1e-3 (c carries the scale)
+        sc = 1.0
+        if th >= 35.0:
+            sc = 1e-3
+            th = th - 40.0
+        elif th >= 15.0:
+            sc = 1e3
+            th = th - 20.0
+        return sc * (np.cos(th) * y[0] + np.sin(th) * y[3] + 0.5 * np.sin(th) * y[1]) - c
 
     @njit(SIG, cache=False)
     def g_hamB(t, y):
@@ -106,11 +114,16 @@ def py_quad(a, at, c):
 
 
 def py_hamA(th, c):
-    if th > 9.0:
+    if 9.0 < th < 15.0:
         return (lambda t, X: t - c), (lambda t, X: np.zeros(len(t)))
+    sc = 1.0
+    if th >= 35.0:
+        sc, th = 1e-3, th - 40.0
+    elif th >= 15.0:
+        sc, th = 1e3, th - 20.0
     ct, st = np.cos(th), np.sin(th)
-    return (lambda t, X: ct * X[:, 0] + st * X[:, 3] + 0.5 * st * X[:, 1] - c), \
-           (lambda t, X: np.full(len(t), np.sqrt(ct * ct + 1.25 * st * st)))
+    return (lambda t, X: sc * (ct * X[:, 0] + st * X[:, 3] + 0.5 * st * X[:, 1]) - c), \
+           (lambda t, X: np.full(len(t), sc * np.sqrt(ct * ct + 1.25 * st * st)))
 
 
 def py_hamB():
@@ -314,6 +327,12 @@ def gen_generic(rng, drv, lib, kappa, it):
         mode = ["cross", "cross", "late", "none"][int(rng.integers(4))]
         g0_exact = float(G0[0])
     c = pick_level(rng, G0, g0_exact, mode)
+    # steepness: the same event written with a slope far from 1 (g -> 1e3 g, 1e-3 g): the two location tolerances (time bracket,
+    # event-function value) then bind at very different accuracies
+    steep = 1.0
+    if mode in ("cross", "late", "none") and rng.random() < 0.45:
+        steep = 1e3 if rng.random() < 0.5 else 1e-3
+        a, at, c = a * steep, at * steep, c * steep
     gpy, gnorm = mk(a, at, c)
     y0 = np.zeros(DIM_G)
     y0[:6] = x0
@@ -322,11 +341,11 @@ def gen_generic(rng, drv, lib, kappa, it):
     y0[IF], y0[INU] = f, nu
     y0[IA:IA + 6] = a
     y0[IAT], y0[IC] = at, c
-    g_start = float(x0[i] - c) if ek == "aff-coord" else float(gpy(np.array([t0]), x0[None, :])[0])
+    g_start = float(x0[i] - c) if (ek == "aff-coord" and steep == 1.0) else float(gpy(np.array([t0]), x0[None, :])[0])
     return dict(drv=drv, fam="gen", system=lib.sysg, y0=y0, t0=t0, T=T, tv=tv, hstep=hstep, spec=spec,
                 event=lib.J["g_quad" if ek == "quad" else "g_aff"], gpy=gpy, gnorm=gnorm, flow=flow, wmax=wmax,
                 g_start=g_start, exact_start=(mode == "surface"), mode=mode, ekind=ek, pcls=pcls,
-                meta={"w": w, "D": D, "f": f, "nu": nu, "x0": x0, "a": a, "a_t": at, "c": c})
+                meta={"w": w, "D": D, "f": f, "nu": nu, "x0": x0, "a": a, "a_t": at, "c": c, "steepness": steep})
 
 
 class HamPool:
@@ -401,9 +420,16 @@ def gen_ham(rng, drv, lib, kappa, it):
             mode = ["cross", "cross", "late", "none"][int(rng.integers(4))]
             g0_exact = float(G0[0])
         c = pick_level(rng, G0, g0_exact, mode)
+        steep_h = 1.0
+        if mode in ("cross", "late", "none") and rng.random() < 0.45:
+            m_ = 1 if rng.random() < 0.5 else 2
+            steep_h = 1e3 if m_ == 1 else 1e-3
+            th = th + 20.0 * m_
+            x0[5] = th
+            c = c * steep_h
         x0[2] = c
         gpy, gnorm = py_hamA(th, c)
-        g_start = float(x0[0] - c) if th == 0.0 else float(gpy(np.array([t0]), x0[None, :])[0])
+        g_start = float(x0[0] - c) if (th == 0.0) else float(gpy(np.array([t0]), x0[None, :])[0])
         event = lib.J["g_hamA"]
     else:
         mode = "free"
